@@ -130,7 +130,7 @@ pub fn child(args: &Args) {
     std::process::exit(4);
 }
 
-fn image_from_log(log_path: &Path) -> (BTreeMap<u64, Vec<u8>>, usize) {
+fn image_from_log(log_path: &Path, sabotage: bool) -> (BTreeMap<u64, Vec<u8>>, usize) {
     let text = std::fs::read_to_string(log_path).unwrap_or_default();
     let mut buf = BufModel::default();
     let mut effects = Vec::new();
@@ -141,8 +141,14 @@ fn image_from_log(log_path: &Path) -> (BTreeMap<u64, Vec<u8>>, usize) {
             buf.drop_flush(0, &mut effects);
             continue;
         }
-        if let Some(event) = from_line(line) {
+        if let Some(mut event) = from_line(line) {
             events += 1;
+            if sabotage {
+                // self-test of this self-test: pretend the BufWriter never holds anything back
+                if let IoEvent::BufWrite { buffered_after, .. } = &mut event {
+                    *buffered_after = 0;
+                }
+            }
             buf.feed(&event, 0, &mut effects);
         }
     }
@@ -177,6 +183,7 @@ pub fn cmd(args: &Args) {
     let out_dir = PathBuf::from(args.get("out", "/dev/shm/mrl-out"));
     let output = Arc::new(Output::new(&out_dir));
     let max_points = args.num("max-points", 40) as usize;
+    let sabotage = args.flag("sabotage");
     let exe = std::env::current_exe().unwrap();
     let n = scripts.len();
     let output_in = output.clone();
@@ -251,7 +258,7 @@ pub fn cmd(args: &Args) {
                 let _ = std::fs::remove_dir_all(&dir);
                 continue;
             }
-            let (computed, events) = image_from_log(&log_path);
+            let (computed, events) = image_from_log(&log_path, sabotage);
             let on_disk: BTreeMap<u64, Vec<u8>> =
                 Image::from_dir(&dir).files.into_iter().map(|(number, img)| (number, img.data)).collect();
             let difference = describe_difference(&computed, &on_disk);
